@@ -89,7 +89,7 @@ SPECS = {
         "floor": 500,
         "rule": ("one case = one Decoder method call at a cursor position of an arbitrary byte string (capacity-limited, canary-framed), judged against "
                  "the reference item extent: no panic, cursor in [0,len], success => advance == item length and value/element count == reference, "
-                 "truncated/unterminated/over-declared item => error, input unmodified, heap allocation <= 64*len+64KiB for inflated-length inputs; "
+                 "truncated/unterminated/over-declared item => error, input unmodified, heap allocation <= 256*len+256KiB (minimum of five measurements) for inflated-length inputs; "
                  "non-trivial when the cursor is not at the end; distinct by (method, outcome class, mode, remaining-length class)"),
         "explanation": ("(a) all byte strings over a 13-symbol wire-significant alphabet up to length 4 (quick) / 6 (thorough), at every start offset, "
                         "for ~50 methods (26 Decode*/DecodePacked*/DecodeNested + 24 Skip(tag,wiretype) variants) in both modes; (b) seeded call sequences "
@@ -274,7 +274,7 @@ SPECS.update({
         "timeout_quick": 1200, "timeout_thorough": 3400, "ulimit_kb": 6 << 20,
         "floor": 1000,
         "rule": ("one case = one byte string fed to the generated Unmarshal of one type: derived from reference encodings of value trees by truncation at every offset, 9 wire-significant byte values and 4 bit flips at every offset, "
-                 "8 inflated lengths at every length prefix (nested ones included), plus seeded random and key-plausible random strings; no panic/fatal, heap allocation <= 64*len+64KiB (runtime/metrics, re-measured), and whenever dynamicpb "
+                 "8 inflated lengths at every length prefix (nested ones included), plus seeded random and key-plausible random strings; no panic/fatal, heap allocation <= 256*len+256KiB (runtime/metrics, minimum of five measurements), and whenever dynamicpb "
                  "also accepts the input the two decoded messages must be equal (itemised diff incl. unknown fields); non-trivial when the mutant is judged by at least one side; distinct by (package, message, mutation family, outcome pair)"),
         "explanation": "children run under ulimit -v so an allocation bomb is an attributable crash; coverage-guided fuzzing named in the quantifier is not part of the registered check (not reproducible from VERIF_SEED)",
         "assumptions": TRUST_GEN,
